@@ -102,31 +102,33 @@ func C01(c *core.Ctx) {
 	// over inside a loop (to emit Data) is allocated inside that loop too; allocated
 	// outside, it still holds the faces of the entries handled before
 	nMaps := 0
-	core.Instrs(pid, func(in ssa.Instruction) {
-		mm, ok := in.(*ssa.MakeMap)
+	core.InstrsDeep(pid, func(in ssa.Instruction) {
+		rg, ok := in.(*ssa.Range)
 		if !ok {
 			return
 		}
-		for _, r := range core.Refs(mm) {
-			rg, ok := r.(*ssa.Range)
-			if !ok {
-				continue
-			}
-			nMaps++
-			made := map[*ssa.BasicBlock]bool{}
-			for _, h := range enclosingLoops(mm.Block()) {
-				made[h] = true
-			}
-			// the range's own loop header is the block of its Next; every loop around
-			// the Range instruction itself must also be around the allocation
-			stale := ""
-			for _, h := range enclosingLoops(rg.Block()) {
-				if !made[h] {
-					stale = p.Pos(h.Instrs[0].Pos())
-				}
-			}
-			c.Decide(stale == "", "R1.10", fmt.Sprintf("downstream-set-per-entry#%d", nMaps), c.Pos(mm), "the set of downstream faces is allocated in the iteration that consumes it", "processIncomingData ranges over a face set inside a loop that does not allocate it afresh: the faces of PIT entries handled earlier are still in it, so they receive the Data again (one copy per later matching entry)")
+		// the map may be built by a private helper: it is then "allocated" where the
+		// helper is called
+		mm, ok := core.Resolve(rg.X).(*ssa.MakeMap)
+		if !ok {
+			return
 		}
+		at, use, okF := core.CommonFrame(pid, mm, rg)
+		if !okF {
+			return
+		}
+		nMaps++
+		made := map[*ssa.BasicBlock]bool{}
+		for _, h := range enclosingLoops(at.Block()) {
+			made[h] = true
+		}
+		stale := ""
+		for _, h := range enclosingLoops(use.Block()) {
+			if !made[h] {
+				stale = p.Pos(h.Instrs[0].Pos())
+			}
+		}
+		c.Decide(stale == "", "R1.10", fmt.Sprintf("downstream-set-per-entry#%d", nMaps), c.Pos(mm), "the set of downstream faces is allocated in the iteration that consumes it", "processIncomingData ranges over a face set inside a loop that does not allocate it afresh: the faces of PIT entries handled earlier are still in it, so they receive the Data again (one copy per later matching entry)")
 	})
 	c.Floor("R1.10", "face sets ranged over in processIncomingData", nMaps, 1)
 
@@ -303,6 +305,7 @@ func C01(c *core.Ctx) {
 
 	// ---- processIncomingData
 	pkt := ssa.Value(pid.Params[1])
+	sl = &core.Slicer{P: p, Root: pid} // from here on the slices are about processIncomingData's body
 	isMatched := func(v ssa.Value) bool { // an element of FindInterestPrefixMatchByDataEnc's result
 		ls := sl.Leaves(v)
 		if len(ls) == 0 {
@@ -360,7 +363,7 @@ func C01(c *core.Ctx) {
 			entryVal = args[1]
 			entryOK = isMatched(args[1])
 			c.Decide(entryOK, "R1.2", "strategy-entry-is-matched:"+key, c.Pos(em), "strategy is given an element of the PIT match result", "strategy is given a PIT entry that is not an element of the match result")
-			c.Decide(args[0] == pkt, "R1.2", "strategy-packet:"+key, c.Pos(em), "strategy is given the arriving packet", "strategy is given a packet other than the arriving Data")
+			c.Decide(core.Same(args[0], pkt), "R1.2", "strategy-packet:"+key, c.Pos(em), "strategy is given the arriving packet", "strategy is given a packet other than the arriving Data")
 		case "processOutgoingData":
 			// face: key of InRecords() of a matched entry (through the local map)
 			leaves := sl.Leaves(args[1])
@@ -391,7 +394,7 @@ func C01(c *core.Ctx) {
 				}
 			}
 			c.Decide(len(bad) == 0 && nTok > 0, "R1.3", "multi-match-token-source:"+key, c.Pos(em), "token copied from the in-record's PitToken", "multi-match branch echoes a token that does not come from the in-record: "+strings.Join(bad, "; "))
-			c.Decide(args[0] == pkt, "R1.2", "multi-match-packet:"+key, c.Pos(em), "the arriving packet is forwarded", "a packet other than the arriving Data is forwarded")
+			c.Decide(core.Same(args[0], pkt), "R1.2", "multi-match-packet:"+key, c.Pos(em), "the arriving packet is forwarded", "a packet other than the arriving Data is forwarded")
 		default:
 			c.Viol("R1.1", "emission-kind:"+key, c.Pos(em), "processIncomingData calls "+id.Name+" directly")
 			continue
